@@ -9,7 +9,7 @@ from datetime import timedelta
 
 from hexital import Hexital
 
-from .catalogue import as_dict, build, encode, mk_candles
+from .catalogue import as_dict, build, common_kwargs, encode, mk_candles
 from .util import snap_candles
 
 
@@ -79,7 +79,7 @@ class Machine:
                 # Hexital (the caller wrote the common arguments once), plus loose analysis keywords of its own
                 sa = m["shared_args"]
                 shared = self._shared_args.setdefault(sa["key"], dict(sa["args"]))
-                given.append({"analysis": m["analysis"], "args": shared, **sa["loose"]})
+                given.append({"analysis": m["analysis"], "args": shared, **sa["loose"], **common_kwargs(m.get("common"))})
                 inds.append(None)
                 continue
             if form == "dict":
